@@ -163,7 +163,7 @@ namespace TrRouting
                       if (
                         departureTimeSeconds == -1
                         ||
-                        parameters.getMaxFirstWaitingTimeSeconds() < connectionMinWaitingTimeSeconds
+                        parameters.getMaxFirstWaitingTimeSeconds() <= 0
                         ||
                         connectionDepartureTime - departureTimeSeconds - nodeDepartureInNodesAccessIte->second.time <= parameters.getMaxFirstWaitingTimeSeconds()
                       )
@@ -360,7 +360,7 @@ namespace TrRouting
                       if (
                         departureTimeSeconds == -1
                         ||
-                        parameters.getMaxFirstWaitingTimeSeconds() < connectionMinWaitingTimeSeconds
+                        parameters.getMaxFirstWaitingTimeSeconds() <= 0
                         ||
                         connectionDepartureTime - departureTimeSeconds - nodeDepartureInNodesAccessIte->second.time <= parameters.getMaxFirstWaitingTimeSeconds()
                       )
